@@ -70,6 +70,9 @@ impl Scenario for Foreign {
                 l.trailing = 0;
             }
         }
+        if rs.chance(1, 8) {
+            lengthen_tail(&mut r, &mut l);
+        }
         // duplicate names on purpose now and then
         if l.entries.len() > 1 && r.chance(1, 6) {
             let n = l.entries[0].name.clone();
